@@ -343,7 +343,10 @@ impl<'a> Interpreter<'a> {
                             return Err(CelError::value("Only strings can be used as Object keys"));
                         };
 
-                        map.insert(key, stack.pop_val()?);
+                        // entries are popped last to first: keep the last entry of a repeated
+                        // key, as the compile-time construction of a constant map does
+                        let value = stack.pop_val()?;
+                        map.entry(key).or_insert(value);
                     }
 
                     stack.push_val(map.into());
